@@ -11,6 +11,7 @@ import (
 	"path/filepath"
 	"sort"
 	"strings"
+	"sync"
 
 	"golang.org/x/tools/go/packages"
 	"golang.org/x/tools/go/ssa"
@@ -26,6 +27,7 @@ type Shared struct {
 
 	errorStringT types.Type // *errors.errorString
 	wrapErrorT   types.Type // *fmt.wrapError
+	fnInfos      sync.Map
 	loadSeconds  float64
 	overlayFiles []string
 }
@@ -34,13 +36,13 @@ type Shared struct {
 // else in the standard library is either pure code that needs no package
 // state, is called natively, or is stubbed.
 var initWhitelist = map[string]bool{
-	"unicode":            true,
-	"unicode/utf8":       true,
-	"strconv":            true,
-	"strings":            true,
-	"sort":               true,
-	"math":               true,
-	"math/bits":          true,
+	"unicode":              true,
+	"unicode/utf8":         true,
+	"strconv":              true,
+	"strings":              true,
+	"sort":                 true,
+	"math":                 true,
+	"math/bits":            true,
 	"internal/stringslite": true,
 }
 
